@@ -14,7 +14,8 @@
 //
 // op encoding (parse_op in Heartbeat.v):
 //
-//	0 t      Setup: entity with heartbeat timeout t ms (only as first operation; default 100)
+//	0 t      Setup: entity with heartbeat timeout t ms, t >= 100 (only as first operation; default 100); the data
+//	         announces t truncated to a multiple of 100 ms and the ticker must follow the announced value
 //	1 t c    Call t c  (c: 0 IsHeartbeatRunning, 1 StopHeartbeat, 2 StartHeartbeat,
 //	                    3 AddFunctionType(heartbeat), 4 RemoveEntity)
 //	2 t      Resume t
@@ -604,6 +605,9 @@ func b2i(b bool) int64 {
 }
 
 func (m *impl) refreshObs(r refresh, n map[int64]int64) hx.Zs {
+	if r.tmo > 0 {
+		m.tmo = r.tmo // from here on the timeout is the one the data announces (the configured one may have more digits)
+	}
 	cnt := n[r.counter]
 	for c, k := range n { // notifies for any other counter are reported as surplus
 		if c != r.counter {
@@ -781,7 +785,7 @@ func (m *impl) Exec(op hx.Zs) []hx.Zs {
 		if len(op) == 3 && op[2] > 0 && !m.configured {
 			defer m.w.delay.Store(op[2] * int64(time.Millisecond)) // after the set-up traffic
 		}
-		if m.configured || op[1] < 1 || op[1]%100 != 0 {
+		if m.configured || op[1] < 100 {
 			if !m.configured {
 				m.configure(defaultTmo)
 			}
@@ -1010,6 +1014,9 @@ func (m *impl) burst(mode int64, k, n int, period time.Duration) []hx.Zs {
 	last := int64(-1)
 	counters := map[int64]bool{}
 	for _, e := range evs {
+		if e.r.tmo > 0 {
+			m.tmo = e.r.tmo
+		}
 		distinct[e.st] = true
 		if e.r.counter <= last {
 			mono = false
@@ -1225,8 +1232,9 @@ func probeChild() {
 
 // ---------------------------------------------------------------- generator
 
-var quickTmo = []int64{100, 100, 100, 200, 200, 300, 400, 2100, 2100, 2200, 2300}
-var thoroughTmo = []int64{100, 100, 200, 200, 300, 400, 700, 1000, 2100, 2200, 2300, 2500, 3000, 4000}
+// configured timeouts; 190, 195 and 290 ms are announced (and must run) as 100, 100 and 200 ms
+var quickTmo = []int64{100, 100, 190, 200, 200, 195, 300, 400, 2100, 2100, 2200, 290, 2300}
+var thoroughTmo = []int64{100, 100, 200, 200, 300, 400, 700, 1000, 2100, 2200, 2300, 2500, 3000, 4000, 150, 190, 199, 250, 290, 1250, 2010, 2050, 2090, 2190, 4050}
 
 func pickTmo(r *hx.Rng, tier string) int64 {
 	if tier == "thorough" {
@@ -1440,6 +1448,13 @@ func fixed(tier string) [][]hx.Zs {
 		cat([]hx.Zs{{0, 300, 200}, {5}}, add, []hx.Zs{{4, 0, 4}, {3, 0}}, seq(1, 1), []hx.Zs{{3, 0}, {7}}),
 		cat([]hx.Zs{{0, 400, 260}, {5}}, add, []hx.Zs{{4, 0, 3}}, seq(1, 1), []hx.Zs{{3, 0}, {7}}),
 	)
+	hs = append(hs,
+		// configured timeouts with more digits than the announced text keeps: 190 ms and 295 ms are announced as 100 / 200 ms
+		// and the stream must keep the announced period; 2.05 s is announced as 2 s, which is not above the threshold
+		cat([]hx.Zs{{0, 190}, {5}}, add, []hx.Zs{{4, 0, 4}, {3, 0}}, seq(1, 1), []hx.Zs{{3, 0}, {7}}),
+		cat([]hx.Zs{{0, 295}, {5}}, add, []hx.Zs{{3, 0}, {4, 0, 3}}, seq(1, 2), []hx.Zs{{4, 1, 3}}, seq(1, 4), []hx.Zs{{3, 1}, {7}}),
+		cat([]hx.Zs{{0, 2050}}, add, []hx.Zs{{4, 0, 2}}, seq(1, 1), []hx.Zs{{3, 0}, call(0, 0)}),
+	)
 	if tier == "thorough" {
 		for _, t := range []int64{2500, 4000, 1000} {
 			hs = append(hs, cat([]hx.Zs{{0, t}, {5}}, add, []hx.Zs{{4, 0, 4}}, seq(0, 1), []hx.Zs{{3, 0}, {7}}))
@@ -1484,7 +1499,7 @@ func main() {
 		NewImpl: newImpl,
 		Gen:     gen,
 		Fixed:   fixed,
-		Count:   map[string]int{"quick": 40, "thorough": 1100},
+		Count:   map[string]int{"quick": 36, "thorough": 1100},
 		Extra:   extra,
 	})
 }
